@@ -45,7 +45,7 @@ TInit ==
 \* there is no action): a truncated execution is never accepted silently
 TReset ==
   /\ IsEvent("Reset")
-  /\ (l = 1 \/ TraceLog[l - 1].e = "End")
+  /\ IF l = 1 THEN TRUE ELSE TraceLog[l - 1].e = "End"
   /\ mode' = Ev.mode
   /\ prog' = [p \in 1..8 |-> NoProg]
   /\ tcode' = [c \in 1..8 |-> NoCode]
@@ -126,7 +126,7 @@ TEnd == /\ IsEvent("End")
         /\ UNCHANGED <<mode, prog, tcode, heap, bad, last, hist, image>>
 
 \* allocator hook events are validated by Trace_CodeMem; here they stutter
-TSkip == /\ l <= Len(TraceLog) /\ Ev.e \in {"NewRegion", "Alloc", "AllocFail", "Free", "Sys", "Dispatch", "Lock", "Unlock"}
+TSkip == /\ l <= Len(TraceLog) /\ Ev.e \in {"NewRegion", "Alloc", "AllocFail", "Free", "Sys", "Dispatch", "Lock", "Unlock", "CompilerExit"}
          /\ l' = l + 1
          /\ UNCHANGED <<mode, prog, tcode, heap, bad, last, hist, image>>
 
